@@ -199,6 +199,16 @@ Example C03_collections :
   dec (SBox BOrdered (SMap SStrT SIntT)) VNone = Exn XAttributeError.
 Proof. cbv zeta. repeat (match goal with |- _ /\ _ => split end); vm_compute; reflexivity. Qed.
 
+(* Literal[1, "a", True, None]: exactly one of the constants, of the very class -- nothing is coerced *)
+Example C03_literal :
+  let t := SLit [VInt 1; VStr "a"; VBool true; VNone] in
+  dec t (VInt 1) = Ok (VInt 1) /\ dec t (VBool true) = Ok (VBool true) /\ dec t VNone = Ok VNone /\
+  dec t (VStr "1") = Exn XValueError /\ dec t (VBool false) = Exn XValueError /\
+  dec (SLit [VInt 1]) (VBool true) = Exn XValueError /\          (* True == 1, but the class differs *)
+  dec t (VFloat (FNum 1 0)) = Exn XValueError /\
+  pk ntE ntP (VInt 2) (cp true t) = Exn XValueError.
+Proof. cbv zeta. repeat (match goal with |- _ /\ _ => split end); vm_compute; reflexivity. Qed.
+
 Example C03_typed_optional_key :
   dec (STyped "TD") (VDict [(VStr "zz", VNone); (VStr "r", VList [VStr "2"])]) = Ok (VDict [(VStr "r", VList [VInt 2])]) /\
   dec (STyped "TD") (VDict [(VStr "o", VStr "1"); (VStr "r", VList [])]) = Ok (VDict [(VStr "r", VList []); (VStr "o", VInt 1)]) /\
